@@ -154,9 +154,46 @@ def guarded(f):
         return {'exc': type(e).__name__, 'msg': str(e)[:200], 'where': where}
 
 
+_SLOT = [0]
+_BYSTANDER = {}
+
+
+def slot_path(workdir, job):
+    """Jobs of one process share a few file names, each rewritten again and again with other content: a reader state
+    remembered per path (or per process) from an earlier file shows up as a wrong re-read of a later one."""
+    if job.get('keep'):
+        return os.path.join(workdir, job['id'] + '.par')
+    _SLOT[0] += 1
+    return os.path.join(workdir, 'slot%d.par' % (_SLOT[0] % 2))
+
+
+def fingerprint(arrays, hdr, enums):
+    """the caller's data, bit for bit: record arrays (dtype + bytes), header and enum dictionaries (order included)"""
+    return ([(str(a.dtype.descr), a.shape, a.tobytes().hex()) for a in arrays],
+            None if hdr is None else [(k, repr(v)) for k, v in hdr.items()],
+            None if enums is None else [(k, repr(v)) for k, v in enums.items()])
+
+
+def bystander_check():
+    """a second object alive in the process must not be influenced by later reads and writes"""
+    b = _BYSTANDER.get('obj')
+    if b is None:
+        return None
+    now = json.dumps(guarded(lambda: dump_yanny(b)), sort_keys=True)
+    return None if now == _BYSTANDER['dump'] else 'the dump of an earlier, still alive yanny object changed'
+
+
+def bystander_adopt(par):
+    if _BYSTANDER.get('obj') is None and par is not None:
+        d = guarded(lambda: dump_yanny(par))
+        if 'ok' in d and d['ok'].get('tables'):
+            _BYSTANDER['obj'] = par
+            _BYSTANDER['dump'] = json.dumps(d, sort_keys=True)
+
+
 def job_write(job, workdir):
     doc = job['doc']
-    path = os.path.join(workdir, job['id'] + '.par')
+    path = slot_path(workdir, job)
     if os.path.exists(path):
         os.remove(path)
     res = {'id': job['id']}
@@ -184,11 +221,21 @@ def job_write(job, workdir):
         else:
             tb.write(path, format='yanny', tablename=names[0])
         return None
+    before = fingerprint(arrays, hdr, enums)
     res['write'] = guarded(do_write)
+    after = fingerprint(arrays, hdr, enums)
+    res['caller_data_changed'] = None if before == after else 'arrays / hdr / enums handed to the writer differ after the call'
+    res['bystander_changed'] = bystander_check()
     if os.path.exists(path):
         with open(path, 'rb') as f:
             res['file_hex'] = f.read().hex()
-        res['reread'] = guarded(lambda: dump_yanny(yanny(path)))
+        keep = {}
+
+        def reread():
+            keep['par'] = yanny(path)
+            return dump_yanny(keep['par'])
+        res['reread'] = guarded(reread)
+        bystander_adopt(keep.get('par'))
         if entry != 'ndarray':
             res['table_func'] = guarded(lambda: dump_table(read_table_yanny(path, names[0])))
             res['table_read'] = guarded(lambda: dump_table(Table.read(path, format='yanny', tablename=names[0])))
@@ -198,7 +245,7 @@ def job_write(job, workdir):
 
 
 def job_read(job, workdir):
-    path = os.path.join(workdir, job['id'] + '.par')
+    path = slot_path(workdir, job)
     data = bytes.fromhex(job['text_hex'])
     with open(path, 'wb') as f:
         f.write(data)
@@ -217,6 +264,12 @@ def job_read(job, workdir):
     res['text_raw'] = guarded(lambda: textobj(True))
     res['bin'] = guarded(lambda: binobj(False))
     res['bin_raw'] = guarded(lambda: binobj(True))
+    res['bystander_changed'] = bystander_check()
+    if _BYSTANDER.get('obj') is None:
+        try:
+            bystander_adopt(yanny(path))
+        except Exception:  # noqa: BLE001 - a text the reader refuses cannot be the bystander
+            pass
     if not job.get('keep'):
         os.remove(path)
     return res
